@@ -24,6 +24,7 @@ RULE = ("Generated: (pinned) a scaled asset with min_scale = max_scale = s over 
         "the flat problem, external dispatch column = sum of the inner assets' dispatch at that node. "
         "Non-trivial: (pinned/free) the scaled asset has non-zero dispatch and s/S != 1 or fixed cost != 0; "
         "(structured) an internal node carries flow. Distinct = distinct spec hash.")
+RULE += (' Round 5: the scaled asset is active within its own window intersected with that of its base asset (documented start / end); scaled order books are generated without window.')
 ASSUMPTIONS = ["a scaled asset is active (dispatch and fixed cost) within its own documented start / end, intersected with the base asset's window (order book bases carry no window of their own: scaled order books are generated without window)",
                "LP bases only (no MIP storage options inside a scaled asset)"]
 
